@@ -11,20 +11,86 @@ import (
 
 	"rscheck/cfgq"
 	"rscheck/core"
+	"rscheck/pat"
 )
 
-// EdgeFact is cfgq.EdgeEstablishes extended to the cases of a tagless switch.
+// EdgeFact is cfgq.EdgeEstablishes extended to the cases of a tagless switch, to conditions carried by boolean
+// locals and to the structure of the condition: a conjunction that holds (a disjunction that fails) establishes
+// what either operand establishes, a disjunction that holds (a conjunction that fails) only what both operands
+// establish.
 func EdgeFact(g *cfgq.Graph, b *cfg.Block, succ int, match func(cfgq.Fact) bool) bool {
-	m := func(f cfgq.Fact) bool { return match(f) || carried(g, b, f, match, 0) }
-	return edgeFact0(g, b, succ, m)
+	var use ast.Node
+	if len(b.Nodes) > 0 {
+		use = b.Nodes[len(b.Nodes)-1]
+	}
+	m := func(f cfgq.Fact) bool { return match(f) || carried(g, use, f, match, 0) }
+	if edgeFact0(g, b, succ, m) {
+		return true
+	}
+	cond := cfgq.CondOf(b)
+	if cond == nil || len(b.Succs) != 2 || b.Kind == cfg.KindSwitchNextCase {
+		return false
+	}
+	if b.Succs[0].Kind == cfg.KindSwitchCaseBody { // a case test: only the single-expression case of a tagless switch is a condition
+		cc, _ := b.Succs[0].Stmt.(*ast.CaseClause)
+		path := core.PathTo(g.Body, cc)
+		if cc == nil || len(path) < 3 {
+			return false
+		}
+		if sw, ok := path[len(path)-3].(*ast.SwitchStmt); !ok || sw.Tag != nil || len(cc.List) != 1 {
+			return false
+		}
+	}
+	switch t := ast.Unparen(cond).(type) {
+	case *ast.BinaryExpr:
+		if t.Op != token.LAND && t.Op != token.LOR {
+			return false
+		}
+	case *ast.UnaryExpr:
+		if t.Op != token.NOT {
+			return false
+		}
+	default:
+		return false
+	}
+	return implies(g, use, cond, succ == 0, match, 0)
+}
+
+// implies: e having the value val establishes a fact accepted by match (see EdgeFact). use is the node at which
+// e is evaluated (boolean locals in e stand for their definitions reaching that node).
+func implies(g *cfgq.Graph, use ast.Node, e ast.Expr, val bool, match func(cfgq.Fact) bool, depth int) bool {
+	if depth > 6 {
+		return false
+	}
+	e = ast.Unparen(e)
+	switch t := e.(type) {
+	case *ast.UnaryExpr:
+		if t.Op == token.NOT {
+			return implies(g, use, t.X, !val, match, depth+1)
+		}
+	case *ast.BinaryExpr:
+		if t.Op == token.LAND || t.Op == token.LOR {
+			l, r := implies(g, use, t.X, val, match, depth+1), implies(g, use, t.Y, val, match, depth+1)
+			if (t.Op == token.LAND) == val {
+				return l || r
+			}
+			return l && r
+		}
+	}
+	for _, f := range cfgq.Facts(e, val) {
+		if match(f) || carried(g, use, f, match, depth+1) {
+			return true
+		}
+	}
+	return false
 }
 
 // carried: f is a fact about a boolean local that carries a condition computed earlier (`change := a != b`,
 // a result of an inlined helper assigned at each of its returns, ...): the fact holds for the condition of
 // every definition that can reach this branch, so match must accept a fact of each of them.
-func carried(g *cfgq.Graph, at *cfg.Block, f cfgq.Fact, match func(cfgq.Fact) bool, depth int) bool {
+func carried(g *cfgq.Graph, use ast.Node, f cfgq.Fact, match func(cfgq.Fact) bool, depth int) bool {
 	id, ok := ast.Unparen(f.Expr).(*ast.Ident)
-	if !ok || depth > 2 || g.Info == nil {
+	if !ok || depth > 4 || g.Info == nil || use == nil {
 		return false
 	}
 	v, ok := Obj(g.Info, id).(*types.Var)
@@ -67,13 +133,12 @@ func carried(g *cfgq.Graph, at *cfg.Block, f cfgq.Fact, match func(cfgq.Fact) bo
 		}
 		return true
 	})
-	if opaque || len(defs) == 0 || len(at.Nodes) == 0 {
+	if opaque || len(defs) == 0 {
 		return false
 	}
-	use := at.Nodes[len(at.Nodes)-1]
 	isDef := func(n ast.Node) bool {
 		for _, d := range defs {
-			if d.p.Node() == n {
+			if d.p.Node() == n && n != use {
 				return true
 			}
 		}
@@ -98,19 +163,17 @@ func carried(g *cfgq.Graph, at *cfg.Block, f cfgq.Fact, match func(cfgq.Fact) bo
 			// `ok = true` / `return true` of an expanded predicate: the edge says that this definition was
 			// executed, so it establishes whatever every path to the definition establishes
 			if depth < 2 && g.Path(cfgq.Query{From: g.Entry(), Target: IsNode(d.p.Node()), AvoidEdge: func(b *cfg.Block, s int) bool {
-				return edgeFact0(g, b, s, func(ff cfgq.Fact) bool { return match(ff) || carried(g, b, ff, match, depth+1) })
+				var u ast.Node
+				if len(b.Nodes) > 0 {
+					u = b.Nodes[len(b.Nodes)-1]
+				}
+				return edgeFact0(g, b, s, func(ff cfgq.Fact) bool { return match(ff) || carried(g, u, ff, match, depth+1) })
 			}}) == nil {
 				continue
 			}
 			return false
 		}
-		okDef := false
-		for _, df := range cfgq.Facts(d.rhs, f.Val) {
-			if match(df) || carried(g, at, df, match, depth+1) {
-				okDef = true
-			}
-		}
-		if !okDef {
+		if !implies(g, d.p.Node(), d.rhs, f.Val, match, depth+1) {
 			return false
 		}
 	}
@@ -231,9 +294,20 @@ func ErrCheck(c *core.Ctx, g *cfgq.Graph, info *types.Info, body ast.Node, call 
 		c.Undecidedf(spec.Rule, spec.Key, call.Pos(), "cannot identify the error variable bound from %s", name)
 		return false
 	}
+	return errFlow(c, g, info, body, as, errObj, name, spec, 0)
+}
+
+// errFlow follows the error held by errObj from the assignment as: it must be tested on every path (directly, in a
+// condition carried by a boolean local, after being forwarded through a converter `x, err = conv(reply, err)` or
+// copied into another error variable), and every edge that establishes "non-nil" must end in a failure exit.
+func errFlow(c *core.Ctx, g *cfgq.Graph, info *types.Info, body ast.Node, as *ast.AssignStmt, errObj types.Object, name string, spec ErrSpec, depth int) bool {
+	fail := func(pos token.Pos, w []string, format string, a ...interface{}) bool {
+		c.Check(spec.Rule, spec.Key, pos, false, fmt.Sprintf(format, a...)+": "+spec.Consequence, w...)
+		return false
+	}
 	ap, ok := g.Find(as)
 	if !ok {
-		c.Undecidedf(spec.Rule, spec.Key, call.Pos(), "call site not in the control-flow graph")
+		c.Undecidedf(spec.Rule, spec.Key, as.Pos(), "call site not in the control-flow graph")
 		return false
 	}
 	spec.seen[as] = true
@@ -241,6 +315,11 @@ func ErrCheck(c *core.Ctx, g *cfgq.Graph, info *types.Info, body ast.Node, call 
 		e, ok := n.(ast.Expr)
 		if !ok {
 			return false
+		}
+		if id, isID := ast.Unparen(e).(*ast.Ident); isID { // the comparison is carried by a boolean local
+			if d := pat.DefOf(info, id); d != nil {
+				e = d
+			}
 		}
 		for _, f := range append(cfgq.Facts(e, true), cfgq.Facts(e, false)...) {
 			if _, is := NilCmp(info, f, errObj); is {
@@ -266,13 +345,87 @@ func ErrCheck(c *core.Ctx, g *cfgq.Graph, info *types.Info, body ast.Node, call 
 		}
 		return true
 	}
+	// copies: `err2 := err`, `reply, err := r.reply, r.err`
+	type copySite struct {
+		as  *ast.AssignStmt
+		obj types.Object
+	}
+	var copies []copySite
+	isCopy := func(n ast.Node) bool {
+		x, ok := n.(*ast.AssignStmt)
+		if !ok || x == as || len(x.Lhs) != len(x.Rhs) {
+			return false
+		}
+		for i, r := range x.Rhs {
+			if Obj(info, r) != errObj {
+				continue
+			}
+			lo := Obj(info, x.Lhs[i])
+			if lo == nil || lo == errObj || !cfgq.IsErrorType(lo.Type()) {
+				continue
+			}
+			if !spec.seen[x] {
+				spec.seen[x] = true
+				copies = append(copies, copySite{x, lo})
+			}
+			return true
+		}
+		return false
+	}
+	// another use of the error whose effect is not followed: handed to a function, stored, returned. A comparison
+	// (`err == io.EOF`) is fully understood - it is not a test against nil and it does nothing with the error.
+	mentions := func(n ast.Node) bool {
+		if n == ast.Node(as) {
+			return false
+		}
+		found := false
+		var stack []ast.Node
+		ast.Inspect(n, func(m ast.Node) bool {
+			if m == nil {
+				stack = stack[:len(stack)-1]
+				return true
+			}
+			is := false
+			switch t := m.(type) {
+			case *ast.Ident:
+				is = info.Uses[t] == errObj
+			case *ast.SelectorExpr:
+				is = info.Uses[t.Sel] == errObj
+			}
+			if is {
+				cmp := false
+				for i := len(stack) - 1; i >= 0; i-- {
+					if _, isP := stack[i].(*ast.ParenExpr); isP {
+						continue
+					}
+					if be, isB := stack[i].(*ast.BinaryExpr); isB && (be.Op == token.EQL || be.Op == token.NEQ) {
+						cmp = true
+					}
+					break
+				}
+				if !cmp {
+					found = true
+				}
+			}
+			stack = append(stack, m)
+			return true
+		})
+		return found
+	}
 	overwritten := func(n ast.Node) bool {
 		x, _ := AssignsTo(info, n, errObj)
 		return x != nil
 	}
-	w := g.Path(cfgq.Query{From: ap, After: true, Avoid: cfgq.Or(isTest, isForward), TargetExit: NormalExit,
-		Target: func(n ast.Node) bool { return !isForward(n) && overwritten(n) }})
-	if w != nil {
+	handled := cfgq.Or(isTest, isForward, isCopy)
+	untested := func(avoid func(ast.Node) bool) []string {
+		return g.Path(cfgq.Query{From: ap, After: true, Avoid: avoid, TargetExit: NormalExit,
+			Target: func(n ast.Node) bool { return !avoid(n) && overwritten(n) }})
+	}
+	if w := untested(handled); w != nil {
+		if untested(cfgq.Or(handled, mentions)) == nil {
+			c.Undecidedf(spec.Rule, spec.Key, as.Pos(), "the error returned by %s is used in a form that is not followed before it is tested", name)
+			return false
+		}
 		return fail(as.Pos(), w, "the error returned by %s is not tested on some path", name)
 	}
 	// every edge establishing err != nil must end in a failure exit
@@ -284,7 +437,7 @@ func ErrCheck(c *core.Ctx, g *cfgq.Graph, info *types.Info, body ast.Node, call 
 			last := ret.Results[len(ret.Results)-1]
 			if tv, ok := info.Types[last]; ok && cfgq.IsErrorType(tv.Type) && !core.IsNil(info, last) {
 				_, isCall := ast.Unparen(last).(*ast.CallExpr)
-				return isCall || Obj(info, last) == errObj
+				return isCall || Obj(info, last) == errObj || returnsNonNil(g, info, ret, Obj(info, last))
 			}
 		}
 		return false
@@ -309,7 +462,7 @@ func ErrCheck(c *core.Ctx, g *cfgq.Graph, info *types.Info, body ast.Node, call 
 			}
 		}
 	}
-	if tested == 0 && len(forwards) == 0 {
+	if tested == 0 && len(forwards) == 0 && len(copies) == 0 {
 		c.Undecidedf(spec.Rule, spec.Key, as.Pos(), "no branch establishing `err != nil` found for %s", name)
 		return false
 	}
@@ -318,8 +471,34 @@ func ErrCheck(c *core.Ctx, g *cfgq.Graph, info *types.Info, body ast.Node, call 
 			return false
 		}
 	}
-	if len(forwards) == 0 {
+	for _, cp := range copies {
+		if depth > 3 || !errFlow(c, g, info, body, cp.as, cp.obj, name, spec, depth+1) {
+			return false
+		}
+	}
+	if len(forwards) == 0 && len(copies) == 0 {
 		c.Okf(spec.Rule, spec.Key, as.Pos(), "error of %s bound, tested, non-nil edge reaches a failure exit on every path", name)
+	}
+	return true
+}
+
+// returnsNonNil: the return statement hands back the error variable v, and every way to reach it passes an edge
+// that establishes v != nil with no assignment to v afterwards: the function reports a failure there (the error
+// may have travelled through copies: a result of an expanded helper, a result struct field, ...).
+func returnsNonNil(g *cfgq.Graph, info *types.Info, ret *ast.ReturnStmt, v types.Object) bool {
+	if v == nil || !cfgq.IsErrorType(v.Type()) {
+		return false
+	}
+	nn := func(b *cfg.Block, s int) bool {
+		return EdgeFact(g, b, s, func(f cfgq.Fact) bool { n, is := NilCmp(info, f, v); return is && n })
+	}
+	if g.Path(cfgq.Query{From: g.Entry(), Target: IsNode(ret), AvoidEdge: nn}) != nil {
+		return false
+	}
+	for _, p := range g.Points(func(n ast.Node) bool { as, _ := AssignsTo(info, n, v); return as != nil }) {
+		if g.Path(cfgq.Query{From: p, After: true, Target: IsNode(ret), AvoidEdge: nn}) != nil {
+			return false // re-assigned after the test and returned untested
+		}
 	}
 	return true
 }
